@@ -7,7 +7,7 @@
     - [f_mode]: read-only ([File::open]), write-only ([File::create]: truncated at
       open, sequential writes) or read+append ([OpenOptions::read.append]: every
       write goes to the end and leaves the offset at the end, so a later read
-      returns 0 bytes).
+      returns 0 bytes; [write_all] of an empty piece makes no system call at all).
     OS contract (trusted): [read] on a regular file is short only at end of file;
     [write_all] writes everything or fails. *)
 From Tftp Require Import Base.Prelude.
@@ -63,19 +63,24 @@ Definition fill (w : window) : wres (window * bool) :=
                    (mk_file (f_mode (w_file w)) rest' (f_written (w_file w))), full)
   end.
 
+Definition all_nil (l : list bytes) : bool := forallb (fun c => match c with [] => true | _ => false end) l.
+
 (** [Window::empty]: write every chunk, then clear. *)
 Definition empty (w : window) : wres window :=
   match w_elems w with
   | [] => WOk w
   | _ =>
     match f_mode (w_file w) with
-    | FRead => WErr WIo (* write on a read-only descriptor *)
+    | FRead =>
+      (* write on a read-only descriptor fails - but [write_all] of an empty piece makes no system call *)
+      if all_nil (w_elems w) then WOk (mk_window [] (w_size w) (w_chunk w) (w_file w)) else WErr WIo
     | FWrite =>
       WOk (mk_window [] (w_size w) (w_chunk w)
              (mk_file FWrite (f_rest (w_file w)) (rev (w_elems w) ++ f_written (w_file w))))
     | FReadAppend =>
       WOk (mk_window [] (w_size w) (w_chunk w)
-             (mk_file FReadAppend [] (rev (w_elems w) ++ f_written (w_file w))))
+             (mk_file FReadAppend (if all_nil (w_elems w) then f_rest (w_file w) else [])
+                      (rev (w_elems w) ++ f_written (w_file w))))
     end
   end.
 
